@@ -1148,21 +1148,28 @@ namespace occa {
         return;
       }
 
-      // Make sure to test #elif expression is valid
+      // If we already finished, keep old state
+      // The expression is not evaluated, just like in C
+      if (status & ppStatus::finishedIf) {
+        skipToNewline();
+        return;
+      }
+
+      // A previous branch was taken, skip the rest without
+      //   evaluating the expression
+      if (status & ppStatus::reading) {
+        swapReadingStatus();
+        status |= ppStatus::finishedIf;
+        skipToNewline();
+        return;
+      }
+
       bool isTrue;
       if (!lineIsTrue(directive, isTrue)) {
         return;
       }
 
-      // If we already finished, keep old state
-      if (status & ppStatus::finishedIf) {
-        return;
-      }
-
-      if (status & ppStatus::reading) {
-        swapReadingStatus();
-        status |= ppStatus::finishedIf;
-      } else if (isTrue) {
+      if (isTrue) {
         status = (ppStatus::foundIf |
                   ppStatus::reading);
       }
